@@ -505,12 +505,28 @@ def run(chk):
         ra = ra if ra != 2**63 - 2 else 2**63 - 1
         cr = ERR if ra < 0 else o_int(0 if ra == 0 else iroot(ra - 1, rb) + 1)
         lcases.append(("lib.ceil_root", f"ceil_root({lit(ra)}, {rb})", f"int lib.ceil_root {ra} {rb}", cr, (ra, rb)))
-        ks = [rng.choice([0, 1, 2, 3, 5, 8, 13, 20, 30]) for _ in range(rng.choice([0, 1, 2, 3, 4]))]
-        mn = math.factorial(sum(ks))
-        for k in ks:
-            mn //= math.factorial(k)
-        lcases.append(("multinom", f"multinom([{', '.join(map(str, ks))}])" if ks else "multinom([].map((x:int)->{x}))", None, o_int(mn), tuple(ks)))
-
+        ks = [rng.choice([0, 0, 1, 2, 3, 5, 8, 13, 20, 30, 41]) for _ in range(rng.choice([0, 1, 2, 3, 4, 5]))]
+        if rng.random() < 0.15 and ks:
+            ks[rng.randrange(len(ks))] = rng.choice([-1, -7, -2**64])
+        if rng.random() < 0.1 and ks:
+            ks[rng.randrange(len(ks))] = rng.choice([2**63 - 1, 2**63, 2**64, 2**127])   # one huge entry: still cheap
+            ks = [k if abs(k) > 2**62 else min(k, 3) for k in ks]
+            if sum(1 for k in ks if abs(k) > 2**62) > 1:
+                ks = ks[:1]
+        if len(ks) <= 1:
+            mn = 1
+        elif min(ks) < 0:
+            mn = None
+        else:
+            big = max(ks)
+            mn, tot = 1, big
+            for k in sorted(ks, reverse=True)[1:]:      # (tot+1)...(tot+k)/k!  — exact, avoids huge factorials
+                for i in range(k):
+                    mn = mn * (tot + i + 1)
+                mn //= math.factorial(k)
+                tot += k
+        lcases.append(("b.multinom", f"multinom([{', '.join(lit(k) for k in ks)}])" if ks else "multinom([].map((x:int)->{x}))",
+                       "int b.multinom" + "".join(f" {k}" for k in ks), ERR if mn is None else o_int(mn), tuple(ks)))
     # text: to_int (with and without base), format, to_str through the model as well
     for _ in range(4 * n):
         base = rng.choice([10, 10, 16, 2, 8, 36, 3, 7, 35, rng.randint(2, 36), 1, 0, -5, 37, 2**64])
